@@ -411,8 +411,8 @@ impl<'a> Engine<'a> {
                 Ok(b) => {
                     // now and then a packet is resized (one of its text fields) so that its APDU body sits exactly on the
                     // short / extended length switch
-                    if def.cf.is_some() && presence == Presence::Random && rng.chance(1, 8) {
-                        let target = *rng.pick(&[254usize, 255, 255, 256]);
+                    if def.cf.is_some() && presence == Presence::Random && rng.chance(1, 4) {
+                        let target = *rng.pick(&[254usize, 255, 255, 255, 256]);
                         if let Some((v2, b2)) = self.stretch_body(rng, def, &v, target) {
                             if let Ok(tree) = self.codec.enc_top(def, &v2) {
                                 r.count("bodies_stretched_to_the_apdu_length_switch", 1);
